@@ -45,6 +45,23 @@ pub enum DataKind {
     Lattice,
 }
 
+/// memory layout of a matrix handed to linfa (the logical content is the same in all three)
+#[derive(Debug, Clone, Copy, PartialEq, Eq, Default, Serialize, Deserialize)]
+pub enum Layout {
+    /// owned, C order
+    #[default]
+    RowMajor,
+    /// owned, Fortran order (`(rows, cols).f()`)
+    ColMajor,
+    /// records / queries: every second row of a doubled array (`slice(s![..;2, ..])`, a strided view);
+    /// precomputed centroids: `to_owned()` of the transpose of a (p,k) array (owned, keeps F order)
+    Strided,
+}
+
+pub fn layout_strategy() -> impl Strategy<Value = Layout> {
+    prop_oneof![3 => Just(Layout::RowMajor), 2 => Just(Layout::ColMajor), 2 => Just(Layout::Strided)]
+}
+
 #[derive(Debug, Clone, PartialEq, Serialize, Deserialize)]
 pub enum Init {
     Random,
@@ -64,6 +81,9 @@ pub struct Data {
     /// added to every point (data, precomputed centroids, queries) before scaling; empty = none
     #[serde(default)]
     pub offset: Vec<f64>,
+    /// memory layout of the training records
+    #[serde(default)]
+    pub layout: Layout,
     pub rows: Vec<Vec<f64>>,
 }
 
@@ -79,6 +99,11 @@ pub struct Case {
     pub seed: u64,
     /// fresh query points (unscaled coordinates)
     pub queries: Vec<Vec<f64>>,
+    /// memory layout of a precomputed centroid matrix / of every query batch
+    #[serde(default)]
+    pub c0_layout: Layout,
+    #[serde(default)]
+    pub query_layout: Layout,
 }
 
 #[derive(Debug, Clone, Serialize, Deserialize)]
@@ -153,11 +178,12 @@ pub fn data_strategy(nmax: usize) -> impl Strategy<Value = Data> {
         3 => Just(vec![]),
         2 => proptest::collection::vec((-4i32..=4).prop_map(|v| 16.0 * v as f64), W),
     ];
-    (rows, 1usize..=W, any::<bool>(), scale, offset).prop_map(|((kind, rows), p, f32_, scale_exp, offset)| Data {
+    (rows, 1usize..=W, any::<bool>(), scale, offset, layout_strategy()).prop_map(|((kind, rows), p, f32_, scale_exp, offset, layout)| Data {
         kind,
         f32_,
         scale_exp,
         offset: offset.into_iter().take(p).collect(),
+        layout,
         rows: cut(rows, p),
     })
 }
@@ -236,9 +262,9 @@ pub fn assign_case(tier: Tier) -> impl Strategy<Value = Case> {
         tol_strategy(),
         1usize..=4,
         any::<u64>(),
-        queries_strategy(),
+        (queries_strategy(), layout_strategy(), layout_strategy()),
     )
-        .prop_map(|(data, kk, metric, ik, raw, max_iter, tol, n_runs, seed, q)| {
+        .prop_map(|(data, kk, metric, ik, raw, max_iter, tol, n_runs, seed, (q, c0_layout, query_layout))| {
             let n = data.rows.len();
             let p = data.rows[0].len();
             let k = k_of(kk, n);
@@ -248,20 +274,20 @@ pub fn assign_case(tier: Tier) -> impl Strategy<Value = Case> {
                 2 => Init::Para,
                 _ => Init::Precomputed(build_c0(&raw, &data.rows, k, p)),
             };
-            Case { data, k, metric, init, max_iter, tol, n_runs, seed, queries: cut(q, p) }
+            Case { data, k, metric, init, max_iter, tol, n_runs, seed, queries: cut(q, p), c0_layout, query_layout }
         })
 }
 
 /// trajectory case: precomputed start, one run; `max_iter` = largest budget examined
 pub fn trajectory_case(tier: Tier) -> impl Strategy<Value = Case> {
     let nmax = tier.pick(60, 200);
-    (data_strategy(nmax), any::<u16>(), metric_strategy(), raw_c0(), 1u64..=12, tol_strategy(), any::<u64>()).prop_map(
-        |(data, kk, metric, raw, max_iter, tol, seed)| {
+    (data_strategy(nmax), any::<u16>(), metric_strategy(), raw_c0(), 1u64..=12, tol_strategy(), any::<u64>(), layout_strategy()).prop_map(
+        |(data, kk, metric, raw, max_iter, tol, seed, c0_layout)| {
             let n = data.rows.len();
             let p = data.rows[0].len();
             let k = k_of(kk, n);
             let init = Init::Precomputed(build_c0(&raw, &data.rows, k, p));
-            Case { data, k, metric, init, max_iter, tol, n_runs: 1, seed, queries: vec![] }
+            Case { data, k, metric, init, max_iter, tol, n_runs: 1, seed, queries: vec![], c0_layout, query_layout: Layout::RowMajor }
         },
     )
 }
@@ -279,9 +305,9 @@ pub fn restarts_case(tier: Tier) -> impl Strategy<Value = Case> {
         prop_oneof![3 => 1u64..=12, 2 => Just(300u64)],
         tol_strategy(),
         1usize..=4,
-        any::<u64>(),
+        (any::<u64>(), layout_strategy()),
     )
-        .prop_map(|(data, kk, metric, ik, raw, max_iter, tol, n_runs, seed)| {
+        .prop_map(|(data, kk, metric, ik, raw, max_iter, tol, n_runs, (seed, c0_layout))| {
             let n = data.rows.len();
             let p = data.rows[0].len();
             let k = k_of(kk, n);
@@ -290,7 +316,7 @@ pub fn restarts_case(tier: Tier) -> impl Strategy<Value = Case> {
                 1 => Init::PlusPlus,
                 _ => Init::Precomputed(build_c0(&raw, &data.rows, k, p)),
             };
-            Case { data, k, metric, init, max_iter, tol, n_runs, seed, queries: vec![] }
+            Case { data, k, metric, init, max_iter, tol, n_runs, seed, queries: vec![], c0_layout, query_layout: Layout::RowMajor }
         })
 }
 
